@@ -5,12 +5,13 @@ use crate::gen::GameParams;
 use crate::props::*;
 use crate::runner::Leg;
 
-const MIX: GameParams = GameParams { max_ops: 120, w_setup: 1, w_pos: 6, w_small: 3, w_frozen: 0, hanging: false };
-const MIX_LONGSETUP: GameParams = GameParams { max_ops: 160, w_setup: 4, w_pos: 4, w_small: 2, w_frozen: 0, hanging: false };
-const SETUP_ONLY: GameParams = GameParams { max_ops: 40, w_setup: 1, w_pos: 0, w_small: 0, w_frozen: 0, hanging: false };
-const SMALL: GameParams = GameParams { max_ops: 240, w_setup: 0, w_pos: 1, w_small: 8, w_frozen: 0, hanging: false };
-const FROZEN: GameParams = GameParams { max_ops: 240, w_setup: 0, w_pos: 0, w_small: 1, w_frozen: 6, hanging: false };
-const POS_ONLY: GameParams = GameParams { max_ops: 40, w_setup: 0, w_pos: 7, w_small: 3, w_frozen: 0, hanging: false };
+const MIX: GameParams = GameParams { max_ops: 120, w_setup: 1, w_pos: 6, w_small: 3, w_frozen: 0, hanging: false, w_motif: 0 };
+const MIX_LONGSETUP: GameParams = GameParams { max_ops: 160, w_setup: 4, w_pos: 4, w_small: 2, w_frozen: 0, hanging: false, w_motif: 0 };
+const SETUP_ONLY: GameParams = GameParams { max_ops: 40, w_setup: 1, w_pos: 0, w_small: 0, w_frozen: 0, hanging: false, w_motif: 0 };
+const SMALL: GameParams = GameParams { max_ops: 240, w_setup: 0, w_pos: 1, w_small: 8, w_frozen: 0, hanging: false, w_motif: 0 };
+const FROZEN: GameParams = GameParams { max_ops: 240, w_setup: 0, w_pos: 0, w_small: 1, w_frozen: 6, hanging: false, w_motif: 0 };
+const MOTIF: GameParams = GameParams { max_ops: 24, w_setup: 0, w_pos: 0, w_small: 0, w_frozen: 0, hanging: false, w_motif: 1 };
+const POS_ONLY: GameParams = GameParams { max_ops: 40, w_setup: 0, w_pos: 7, w_small: 3, w_frozen: 0, hanging: false, w_motif: 0 };
 
 const TREE: ExpandOpts = ExpandOpts { caps: [0, 10, 5], rate: 40, max_nodes: 6000 };
 const TREE_CYCLE: ExpandOpts = ExpandOpts { caps: [0, 8, 4], rate: 48, max_nodes: 4000 };
@@ -83,10 +84,12 @@ fn legs_base(id: &str) -> Vec<Leg> {
         "C01" => vec![
             leg!("tree_from_positions", POS_ONLY, w(Profile::Fight, Some(TREE)), 60, 1800, 60, mk),
             leg!("tree_along_games", MIX, w(Profile::Fight, Some(TREE_LIGHT)), 40, 1200, 300, mk),
+            leg!("false_protection_motif_tree", MOTIF, w(Profile::Fight, Some(TREE)), 150, 1200, 60, mk),
         ],
         "C02" => vec![
             leg!("games_fight", MIX, w(Profile::Fight, Some(TREE_LIGHT)), 480, 14400, 600, mk),
             leg!("games_normal", MIX, w(Profile::Normal, None), 960, 28800, 1500, mk),
+            leg!("false_protection_motif_tree", MOTIF, w(Profile::Fight, Some(TREE)), 300, 2400, 60, mk),
         ],
         "C03" => vec![
             leg!("games_normal", MIX_LONGSETUP, w(Profile::Normal, None), 10000, 300000, 1500, mk),
@@ -95,6 +98,7 @@ fn legs_base(id: &str) -> Vec<Leg> {
         "C04" => vec![
             leg!("games_normal", MIX, w(Profile::Normal, None), 1600, 48000, 1500, mk),
             leg!("games_fight", SMALL, w(Profile::Fight, None), 1600, 48000, 600, mk),
+            leg!("false_protection_motif_tree", MOTIF, w(Profile::Fight, Some(TREE)), 300, 2400, 60, mk),
         ],
         "C05" | "C06" | "C07" => vec![
             leg!("small_cycle", SMALL, w(Profile::Cycle, None), 5000, 150000, 1500, mk),
@@ -111,11 +115,13 @@ fn legs_base(id: &str) -> Vec<Leg> {
             leg!("games_normal", MIX_LONGSETUP, w(Profile::Normal, None), 3000, 90000, 1500, mk),
             leg!("games_fight", MIX, w(Profile::Fight, None), 3000, 90000, 1000, mk),
             leg!("small_cycle", SMALL, w(Profile::Cycle, None), 2000, 60000, 1000, mk),
+            leg!("false_protection_motif_tree", MOTIF, w(Profile::Fight, Some(TREE)), 300, 2400, 60, mk),
         ],
         "C09" => vec![leg!("setup_orders", SETUP_ONLY, w(Profile::Normal, None), 32000, 960000, 40, mk)],
         "C10" => vec![
             leg!("games_normal", MIX_LONGSETUP, w(Profile::Normal, None), 240, 7200, 1000, mk),
             leg!("games_fight_tree", MIX, w(Profile::Fight, Some(TREE_LIGHT)), 90, 2700, 400, mk),
+            leg!("false_protection_motif_tree", MOTIF, w(Profile::Fight, Some(TREE)), 150, 1200, 60, mk),
         ],
         "C11" => vec![
             leg!("games_normal", MIX, w(Profile::Normal, None), 1800, 54000, 800, mk),
@@ -125,14 +131,17 @@ fn legs_base(id: &str) -> Vec<Leg> {
         "C12" => vec![
             leg!("tree_from_positions", POS_ONLY, w(Profile::Fight, Some(TREE)), 300, 9000, 60, mk),
             leg!("games_fight", MIX, w(Profile::Fight, Some(TREE_LIGHT)), 400, 12000, 400, mk),
+            leg!("false_protection_motif_tree", MOTIF, w(Profile::Fight, Some(TREE)), 300, 2400, 60, mk),
         ],
         "C13" => vec![
             leg!("games_fight", MIX, w(Profile::Fight, Some(TREE_LIGHT)), 120, 3600, 500, mk),
             leg!("games_normal", MIX, w(Profile::Normal, None), 300, 9000, 1000, mk),
+            leg!("false_protection_motif_tree", MOTIF, w(Profile::Fight, Some(TREE)), 200, 1600, 60, mk),
         ],
         "C14" => vec![
             leg!("tree_from_positions", POS_ONLY, w(Profile::Fight, Some(TREE)), 75, 2250, 60, mk),
             leg!("games_normal", MIX, w(Profile::Normal, None), 300, 9000, 1000, mk),
+            leg!("false_protection_motif_tree", MOTIF, w(Profile::Fight, Some(TREE)), 200, 1600, 60, mk),
         ],
         "C15" => vec![
             leg!("games_normal", MIX_LONGSETUP, w(Profile::Normal, None), 360, 10800, 800, mk),
@@ -143,6 +152,7 @@ fn legs_base(id: &str) -> Vec<Leg> {
             leg!("games_fight_tree", MIX, w(Profile::Fight, Some(TREE_LIGHT)), 150, 4500, 500, mk),
             leg!("small_cycle", SMALL, w(Profile::Cycle, None), 400, 12000, 1000, mk),
             leg!("small_cycle_through_withheld_actions", SMALL, wn(Profile::Cycle), 600, 18000, 1000, mk),
+            leg!("false_protection_motif_tree", MOTIF, w(Profile::Fight, Some(TREE)), 200, 1600, 60, mk),
         ],
         _ => vec![],
     }
